@@ -110,6 +110,15 @@ impl Puppet {
         let t: Vec<&str> = line.split_whitespace().collect();
         assert!(t.len() >= 5 && t[0] == "hello", "bad puppet hello: {line:?}");
         let pid: i32 = t[1].parse().unwrap();
+        // Pin the whole puppet (threads inherit) to one CPU: glibc keeps an rseq area in every
+        // thread's TCB - which lies inside the captured stack mapping - and the kernel rewrites its
+        // cpu_id on migration; with one CPU two dumps of a quiescent puppet see identical memory.
+        unsafe {
+            let ncpu = libc::sysconf(libc::_SC_NPROCESSORS_ONLN).max(1) as usize;
+            let mut set: libc::cpu_set_t = std::mem::zeroed();
+            libc::CPU_SET(pid as usize % ncpu, &mut set);
+            libc::sched_setaffinity(pid, std::mem::size_of::<libc::cpu_set_t>(), &set);
+        }
         let mem = std::fs::OpenOptions::new().read(true).write(true).open(format!("/proc/{pid}/mem")).expect("open puppet mem");
         Puppet { child, stdin, stdout, pid, mem, siglog: parse_ptr(t[2]), siglog_n: parse_ptr(t[3]), sigrtmin: t[4].parse().unwrap(), threads: Vec::new() }
     }
@@ -276,6 +285,31 @@ impl Puppet {
 
     pub fn maps_text(&self) -> Vec<u8> {
         std::fs::read(format!("/proc/{}/maps", self.pid)).unwrap_or_default()
+    }
+
+    /// Wait until the target is quiescent: the main thread is blocked in read(2) again and every
+    /// live block thread is inside futex(2). Busy (spin/count) threads never block by design.
+    pub fn quiesce(&mut self) {
+        let _ = self.cmd("ping");
+        let deadline = std::time::Instant::now() + std::time::Duration::from_secs(5);
+        let in_syscall = |pid: i32, tid: i32, nr: &str| -> bool {
+            std::fs::read_to_string(format!("/proc/{pid}/task/{tid}/syscall")).map(|s| s.starts_with(nr)).unwrap_or(false)
+        };
+        loop {
+            let mut ok = in_syscall(self.pid, self.pid, "0 ");
+            for t in &self.threads {
+                if t.alive && t.kind == Kind::Block && !in_syscall(self.pid, t.tid, "202 ") {
+                    ok = false;
+                }
+            }
+            if ok {
+                return;
+            }
+            if std::time::Instant::now() > deadline {
+                panic!("puppet {} did not become quiescent", self.pid);
+            }
+            std::thread::sleep(std::time::Duration::from_micros(200));
+        }
     }
 
     pub fn alive(&mut self) -> bool {
